@@ -215,6 +215,7 @@ func parent(m fw.Monitor) int {
 	overflow := false
 	inconclusive := []string{}
 	exh := map[string]int{}
+	sharedSet, sharedCalls, sharedTrace := false, int64(0), uint64(0)
 	for i, sh := range shards {
 		oc := outcomes[i]
 		rb, rerr := os.ReadFile(filepath.Join(work, fmt.Sprintf("result-%d.json", sh)))
@@ -266,6 +267,13 @@ func parent(m fw.Monitor) int {
 			}
 		}
 		inconclusive = append(inconclusive, r.Inconclusive...)
+		if len(r.Violations) == 0 && len(r.Inconclusive) == 0 {
+			// (a shard that ended a case list early on a verdict is not compared.)
+			if sharedSet && (r.SharedCalls != sharedCalls || r.SharedTrace != sharedTrace) {
+				inconclusive = append(inconclusive, "the shards disagree on the enumeration of the shared cases (some were skipped or run twice)")
+			}
+			sharedSet, sharedCalls, sharedTrace = true, r.SharedCalls, r.SharedTrace
+		}
 		merged.Notes = append(merged.Notes, r.Notes...)
 		for _, e := range r.Exhaustive {
 			exh[e]++
